@@ -17,4 +17,6 @@ def run(rep, fb, tier):
     safety.rule_extern_c_nothrow(rep, fb)
     from ..rules import lints
     lints.rule_raw_store(rep, fb)
+    from ..rules import lints as _ly
+    _ly.rule_growth_progress(rep, fb)
     rep.units = fb.units
